@@ -133,11 +133,20 @@ def ift1d(cx, entry="rootfinder", placement="explicit", second=True, bck_method=
     return "ok"
 
 
-def ift2d(cx, entry="rootfinder", second=False, bck_method=None, shape=(2,)):
+def ift2d(cx, entry="rootfinder", second=False, bck_method=None, shape=(2,), fixed=None, bck_opts=None):
     """f(y) = P y + q*y0*y1 - r with r := P ys + q ys0 ys1"""
-    P = cx.sym("P", (2, 2), requires_grad=True)
-    q = cx.sym("q", (2,), requires_grad=True)
-    ys = cx.sym("ys", (2,))
+    if fixed is not None:
+        # a fixed problem with a non-symmetric Jacobian (the cotangent stays symbolic): lets an ITERATIVE backward solver run
+        # to exact convergence within the unrolling bound
+        Pv, qv, yv = {0: ([[2.0, 1.0], [-0.5, 1.5]], [0.5, -0.25], [1.0, 0.5]),
+                      1: ([[1.0, 2.0], [0.25, -1.5]], [0.0, 0.0], [0.5, -1.0])}[fixed]
+        P = cx.const(torch.tensor(Pv, dtype=torch.float64)).requires_grad_()
+        q = cx.const(torch.tensor(qv, dtype=torch.float64)).requires_grad_()
+        ys = cx.const(torch.tensor(yv, dtype=torch.float64))
+    else:
+        P = cx.sym("P", (2, 2), requires_grad=True)
+        q = cx.sym("q", (2,), requires_grad=True)
+        ys = cx.sym("ys", (2,))
     r = (torch.matmul(P, ys) + q * ys[0] * ys[1]).detach().clone().requires_grad_()
     leaves = [P, q, r]
 
@@ -155,7 +164,7 @@ def ift2d(cx, entry="rootfinder", second=False, bck_method=None, shape=(2,)):
     method, seen = _planted(ys.reshape(shape))
     kw = {"method": method}
     if bck_method is not None:
-        kw["bck_options"] = {"method": bck_method}
+        kw["bck_options"] = dict({"method": bck_method}, **(bck_opts or {}))
     if entry == "rootfinder":
         y = rootfinder(f, y0, params=(P, q, r), **kw)
     else:
@@ -198,6 +207,14 @@ def configs(tier):
     add("ift2d/equilibrium/1st", ift2d, entry="equilibrium")
     add("ift2d/rootfinder/1st/shape(2,1)", ift2d, entry="rootfinder", shape=(2, 1))
     add("ift2d/rootfinder/1st/bck_custom_exactsolve", ift2d, entry="rootfinder", bck_method="custom_exactsolve")
+    # iterative backward solvers run to exact convergence (tolerances 0, n iterations) on fixed non-symmetric Jacobians
+    exact_it = {"rtol": 0.0, "atol": 0.0, "max_niter": 2}
+    add("ift2d/rootfinder/fixed0/bck_cg", ift2d, entry="rootfinder", fixed=0, bck_method="cg", bck_opts=exact_it)
+    if tier == "thorough":
+        add("ift2d/equilibrium/fixed1/bck_cg", ift2d, entry="equilibrium", fixed=1, bck_method="cg", bck_opts=exact_it,
+            opts={"budget_s": 1500})
+    # (gmres is not used here: the shipped gmres does not converge in n iterations on these 2x2 systems and says so with a
+    # ConvergenceWarning, which is within its contract - an exact-gradient claim on it would demand more than the property)
     if tier == "thorough":
         big = {"budget_s": 1700, "timeout_ms": 60000}
         add("ift2d/rootfinder/2nd", ift2d, entry="rootfinder", second=True, opts=big)
